@@ -15,7 +15,9 @@ ALGS = ["MD5", "MD5-sess", "SHA-256", "SHA-256-sess"]
 HOST = "example.org"
 USERS = {
     "Admin Zone": {"user": "pw", "admin": "t0p secret", "Jožo": "heslo č",
-                   "John Doe": "p w"},
+                   "John Doe": "p w",
+                   # a name stored in decomposed form (e + combining acute)
+                   "Ame\u0301lie": "nfd"},
     "Zóna": {"user": "other-pw", "éva": "x"},
     "r2": {"bob": "b"},
 }
@@ -114,6 +116,7 @@ def parse_challenge(www):
 class World:
     """one application + protected default handler"""
     built = 0
+    requests = 0
     def __init__(self, clock, alg, qop, timeout, realm, required,
                  secret="s3cr3t", pmap=True, secret_in_environ=False):
         from poorwsgi import wsgi, digest, state
@@ -171,6 +174,13 @@ class World:
             hdrs["User-Agent"] = agent
         if header is not None:
             hdrs["Authorization"] = header
+        # request headers that say nothing about authentication
+        World.requests += 1
+        hdrs.update([{}, {"X-Requested-With": "XMLHttpRequest"},
+                     {"Accept": "application/json"}, {},
+                     {"X-Requested-With": "XMLHttpRequest",
+                      "Origin": "http://other.example"},
+                     {"Cache-Control": "no-cache"}][World.requests % 6])
         extra = {"SERVER_NAME": HOST}
         if self.secret_in_environ:
             extra["poor_SecretKey"] = self.secret
@@ -635,7 +645,10 @@ def scenarios(world, rng, quick, base_t, big=20000):
                 yield ("no-challenge", method, path, query, agent_env, None,
                        base_t)
                 continue
-            foreign, _ = world.challenge("other agent", base_t)
+            # another client: an unrelated agent, or one whose name is the
+            # same text sent in another encoding (different header bytes)
+            foreign, _ = world.challenge(
+                "M\xf6z" if agent == "M\u00f6z" else "other agent", base_t)
             password = USERS[world.realm][user]
             uri = request_uri(path, query)
             # nc is eight hex digits (RFC 7616): the tenth and later
